@@ -1,11 +1,22 @@
 """C16 - TokenTree: model checking of specs/TokenTree.tla, replay of its state graph on the real
-TokenTree (binding R) and TLC validation of recorded histories of larger random trees (binding T)."""
+TokenTree (binding R) and TLC validation of recorded histories of larger random trees (binding T).
+
+Spec actions and their real counterparts: Gather(t, wc) = gather_token of a freshly built Token; ReceiveContent = Token.receive_content;
+Unserialize(seq) = unserialize_public of the concatenated chunks of seq (any order; forged / foreign / dangling chunks; result compared
+with `ret`); Init's `view` = how the TokenTree object is constructed (bare public key, full key object, the owner's own tree)."""
 from __future__ import annotations
 
 import json
 import os
 import random
+import multiprocessing
+import re
 import shutil
+import time
+from concurrent.futures import ProcessPoolExecutor, ThreadPoolExecutor
+from concurrent.futures.process import BrokenProcessPool
+from types import SimpleNamespace
+from hashlib import sha3_256
 
 from ..common import Ctx, setup_repo_path
 from ..replay import diff_states, edge_cover
@@ -25,8 +36,9 @@ class World:
         self.owner, self.other = owner, other
         self.TokenTree = TokenTree
         self.Token = Token
-        probe = TokenTree(public_key=owner.pub())
-        self.genesis = probe.genesis_hash
+        # documented genesis pointer: SHA3-256(PUBLIC KEY) - computed here, not taken from a tree object
+        self.pub_bin = owner.pub().key_to_bin()
+        self.genesis = sha3_256(self.pub_bin).digest()
         self.tok = {}     # id -> (token without content, token with content)
         self.content = {}
         self.id_of = {}
@@ -48,12 +60,31 @@ class World:
         make(f, h(fpar), other)          # signed by a foreign key: does not verify under the tree key
         make(d, h(f), owner)             # valid signature, parent is the forged token
 
-    def fresh(self, ucap):
+    def fresh(self, ucap, view="pub"):
+        """A new tree object, built the way the spec's `view` says (Init of TokenTree.tla)."""
         self.decoy = self.TokenTree(public_key=self.other.pub())    # the view of another key's tree (see gather)
         self.decoy.unchained_max_size = ucap
-        t = self.TokenTree(public_key=self.owner.pub())
+        if view == "pub":
+            t = self.TokenTree(public_key=self.owner.pub())
+        elif view == "full":
+            t = self.TokenTree(public_key=self.owner)     # a key object that also carries the secret part
+        elif view == "own":
+            t = self.TokenTree(private_key=self.owner)
+        else:
+            raise MachineryError("unknown view %r" % (view,))
         t.unchained_max_size = ucap
         return t
+
+    def chunk(self, t):
+        return self.tok[t][0].get_plaintext_signed()
+
+    def split(self, blob):
+        size = len(self.chunk(1))
+        return sorted(blob[i:i + size] for i in range(0, len(blob), size))
+
+    def unserialize(self, tree, seq):
+        """Unserialize(seq): one wire string made of the chunks of seq, in that order."""
+        return tree.unserialize_public(b"".join(self.chunk(t) for t in seq))
 
     def gather(self, tree, t, wc):
         src = self.tok[t][1 if wc else 0]
@@ -83,11 +114,13 @@ class World:
         unch = tuple(self.id_of[t.get_hash()] for t in tree.unchained)
         cont = frozenset([self.id_of[h] for h, t in tree.elements.items() if t.content is not None] +
                          [self.id_of[t.get_hash()] for t in tree.unchained if t.content is not None])
-        return {"elements": els, "unchained": unch, "cont": cont}
+        return {"elements": els, "unchained": unch, "cont": cont,
+                # the anchor of the chain, documented as SHA3-256(PUBLIC KEY) and used by callers to make root tokens
+                "treeKey": "ownerPub" if tree.genesis_hash == self.genesis else "ownerFull"}
 
 
-def check_queries(w, tree, st, parent_of):
-    """verify()/get_root_path()/get_missing()/serialize_public round trip against what the spec state implies."""
+def check_queries(w, tree, st, parent_of, view="pub", pick=0):
+    """verify()/get_root_path()/get_missing()/serialize_public round trips against what the spec state implies."""
     problems = []
     els = st["elements"]
     for t in els:
@@ -107,142 +140,403 @@ def check_queries(w, tree, st, parent_of):
     missing = {w.tok[t][0].previous_token_hash for t in st["unchained"]}
     if tree.get_missing() != missing:
         problems.append("get_missing disagrees with the waiting area")
-    # public serialisation reloads to the same tree (spec: PublicRoundTrip holds in this state)
+    # serialize_public() lists the chunks of `elements` (their order in the string is not part of the property) ...
     blob = tree.serialize_public()
-    fresh = w.fresh(tree.unchained_max_size)
-    fresh.unserialize_public(blob)
+    if w.split(blob) != sorted(w.chunk(t) for t in els):
+        problems.append("serialize_public() does not list exactly the chunks of the contained tokens")
+    # ... and reloads to the same tree, reporting success (spec: PublicRoundTrip, PublicReloadsClean hold in this state)
+    ucap = tree.unchained_max_size
+    fresh = w.fresh(ucap, view)
+    ok = fresh.unserialize_public(blob)
     if set(fresh.elements) != set(tree.elements):
         problems.append("serialize_public/unserialize_public does not reload the same tree")
+    elif ok is not True:
+        problems.append("unserialize_public reports failure for the tree's own public serialisation")
+    # serialize_public(up_to = t) is PathSeq(t): t, parent(t), ... root - leaf FIRST; while the waiting area can hold the
+    # path it reloads to exactly that path (spec: PathRoundTrip).  One token per walk (they rotate over the walks).
+    if els:
+        t = els[pick % len(els)]
+        exp, cur = [t], t
+        while parent_of(cur) != 0:
+            cur = parent_of(cur)
+            exp.append(cur)
+        blob = tree.serialize_public(up_to=tree.elements[w.tok[t][0].get_hash()])
+        if w.split(blob) != sorted(w.chunk(x) for x in exp):
+            problems.append("serialize_public(up_to=%d) does not list exactly the chunks of the root path %s" % (t, exp))
+        elif len(exp) <= ucap + 1:
+            fresh = w.fresh(ucap, view)
+            fresh.unserialize_public(blob)
+            got = sorted(w.id_of.get(h, -1) for h in fresh.elements)
+            if got != sorted(exp):
+                problems.append("serialize_public(up_to)/unserialize_public: path %s reloads to %s" % (exp, got))
     return problems
 
 
-def replay_graph(ctx, cfgname, n, ucap, max_ops, keys, tag):
+def tlc_graph(cfgname):
+    """TLC on TokenTree.tla with a dump of the state graph -> (TlcResult, Graph).  Runs in a worker thread."""
     tmp = scratch_dir("c16-")
     try:
         dot = os.path.join(tmp, "g.dot")
-        r = run_tlc("TokenTree.tla", cfgname, dump=dot)
+        r = run_tlc("TokenTree.tla", cfgname, dump=dot, coverage=False, java_opts=("-Xmx3g",))
         if not r.ok:
             raise MachineryError("TokenTree %s: TLC reports %s on the specification itself" % (cfgname, r.violated))
-        ctx.add_tlc(tag, r)
         g = parse_dot(dot)
     finally:
         shutil.rmtree(tmp, ignore_errors=True)
+    # per-action transition counts from the dumped graph itself (the vacuity reading; no -coverage run needed)
+    cnt, dist, seen = {}, {}, set()
+    for _s, name, _a, d in g.edges:
+        cnt[name] = cnt.get(name, 0) + 1
+        if d not in seen:
+            seen.add(d)
+            dist[name] = dist.get(name, 0) + 1
+    r.coverage = {k: (dist.get(k, 0), v) for k, v in cnt.items()}
+    return r, g
+
+
+def replay_graph(ctx, cfgname, rg, n, ucap, max_ops, keys, tag, expect_actions, part=0, nparts=1):
+    """Replays the walks number part, part + nparts, ... of the edge cover; -> statistics (merged by the caller)."""
+    r, g = rg
+    for a in expect_actions:
+        if not r.coverage.get(a, (0, 0))[1]:
+            raise MachineryError("TokenTree %s: action %s is never taken (vacuous)" % (cfgname, a))
     worlds = {}
-    nwalks = nedges = 0
+    nwalks = nedges = nreal = 0
     covered = set()
-    for init, walk in edge_cover(g, max_ops=max_ops, seed=ctx.seed):
+    views = set()
+    for wi, (init, walk) in enumerate(edge_cover(g, max_ops=max_ops, seed=ctx.seed)):
+        if wi % nparts != part:
+            continue
         st0 = g.states[init]
         key = (st0["parent"], st0["fpar"])
         if key not in worlds:
             worlds[key] = World(n, st0["parent"], st0["fpar"], *keys)
         w = worlds[key]
-        tree = w.fresh(ucap)
+        view = st0["view"]
+        views.add(view)
+        tree = w.fresh(ucap, view)
         labels = []
         par = st0["parent"]
 
         def parent_of(t, par=par, st0=st0):
             return par[t - 1] if t <= n else (st0["fpar"] if t == n + 1 else n + 1)
+        d = diff_states(st0, w.project(tree))
+        if d:
+            ctx.violation("replay:Init:%s" % ",".join(sorted(d)),
+                          "a new TokenTree (view %r) is not the initial state of TokenTree.tla: %s" % (view, d),
+                          {"cfg": cfgname, "view": view, "diff": d})
+            break
         for ei in walk:
             _s, name, args, dst = g.edges[ei]
             labels.append("%s%s" % (name, list(args)))
+            proj_ret = None
             if name == "Gather":
-                w.gather(tree, args[0], args[1])
+                proj_ret = w.gather(tree, args[0], args[1]) is not None
+                nreal += 1
             elif name == "ReceiveContent":
                 tok = tree.elements[w.tok[args[0]][0].get_hash()]
                 tok.receive_content(w.content[args[0]] if args[1] else b"wrong content")
+                nreal += 1
+            elif name == "Unserialize":
+                proj_ret = w.unserialize(tree, args[0])
+                nreal += len(args[0])
             else:
                 raise MachineryError("unknown action " + name)
-            d = diff_states(g.states[dst], w.project(tree))
+            proj = w.project(tree)
+            if proj_ret is not None and g.states[dst]["ret"] != "-":
+                proj["ret"] = proj_ret
+            d = diff_states(g.states[dst], proj)
             covered.add(ei)
             nedges += 1
             if d:
                 ctx.violation("replay:%s:%s" % (name, ",".join(sorted(d))),
-                              "real TokenTree diverges from TokenTree.tla after %s: %s" % (labels[-1], d),
-                              {"cfg": cfgname, "parent": list(st0["parent"]), "fpar": st0["fpar"],
+                              "real TokenTree (view %r) diverges from TokenTree.tla after %s: %s" % (view, labels[-1], d),
+                              {"cfg": cfgname, "view": view, "parent": list(st0["parent"]), "fpar": st0["fpar"],
                                "actions": labels, "diff": d})
                 break
         else:
-            probs = check_queries(w, tree, g.states[g.edges[walk[-1]][3]], parent_of)
+            probs = check_queries(w, tree, g.states[g.edges[walk[-1]][3]], parent_of, view, wi)
             for p in probs:
-                ctx.violation("query:" + p.split("(")[0], p,
-                              {"cfg": cfgname, "parent": list(st0["parent"]), "fpar": st0["fpar"], "actions": labels})
+                ctx.violation("query:" + p.split("(")[0].split(":")[0].split(" path ")[0], p,
+                              {"cfg": cfgname, "view": view, "parent": list(st0["parent"]), "fpar": st0["fpar"],
+                               "actions": labels})
         nwalks += 1
-        ctx.nontrivial((key, tuple(walk)))
-        if nwalks <= 2:
-            ctx.sample({"tree_parents": list(st0["parent"]), "forged_parent": st0["fpar"], "actions": labels})
+        ctx.nontrivial((key, view, tuple(walk)))
+        if wi < 2:
+            ctx.sample({"tree_parents": list(st0["parent"]), "forged_parent": st0["fpar"], "view": view,
+                        "actions": labels[-12:]})
         if ctx.violations:
             break
-    ctx.evaluated(nedges)
+    ctx.evaluated(nreal)
     ctx.traces(nwalks)
-    ctx.note("replay_" + tag, {"walks": nwalks, "real_operations": nedges, "graph_states": len(g.states),
-                               "graph_edges": len(g.edges), "edges_covered": len(covered),
-                               "complete_edge_cover": len(covered) == len(g.edges)})
+    return {"walks": nwalks, "transitions_replayed": nedges, "real_operations": nreal, "views": views,
+            "covered": covered}
 
 
 # ---------------------------------------------------------------------------------------------------
 # binding T: recorded histories of larger random trees validated by TLC (specs/TokenTreeTrace.tla)
 # ---------------------------------------------------------------------------------------------------
-def record_traces(ctx, keys, count, rng, corrupt=None):
+VIEWS = ("pub", "full", "own")
+
+
+def _shape(rng, n):
+    shape = rng.choice(["chain", "wide", "random", "deep-forks"])
+    if shape == "chain":
+        return [i for i in range(n)]
+    if shape == "wide":
+        return [0] + [rng.choice([0, 1]) for _ in range(n - 1)]
+    if shape == "deep-forks":
+        return [0] + [max(0, i - rng.choice([0, 0, 1, 2])) for i in range(1, n)]
+    return [rng.randrange(0, i + 1) for i in range(n)]
+
+
+def _event(w, tree, kind, t, wc, ts, ret):
+    p = w.project(tree)
+    return {"k": kind, "t": t, "wc": wc, "ts": ts, "ret": bool(ret), "els": list(p["elements"]),
+            "unch": list(p["unchained"]), "cont": sorted(p["cont"]), "key": p["treeKey"]}
+
+
+def record_traces(ctx, keys, count, rng):
+    """Histories of the real TokenTree: single offers (gather_token) mixed with wire strings (unserialize_public) whose
+    chunks come in arbitrary order and include forged / foreign / dangling / garbage chunks; every way to build the tree."""
     traces = []
     n = TRACE_N
     for ti in range(count):
-        shape = rng.choice(["chain", "wide", "random", "deep-forks"])
-        if shape == "chain":
-            parent = [i for i in range(n)]
-        elif shape == "wide":
-            parent = [0] + [rng.choice([0, 1]) for _ in range(n - 1)]
-        elif shape == "deep-forks":
-            parent = [0] + [max(0, i - rng.choice([0, 0, 1, 2])) for i in range(1, n)]
-        else:
-            parent = [rng.randrange(0, i + 1) for i in range(n)]
+        parent = _shape(rng, n)
         fpar = rng.choice([0, 1])
         ucap = n + 2
+        view = VIEWS[(ti + rng.randrange(3)) % 3] if ti >= 3 else VIEWS[ti]
         w = World(n, parent, fpar, *keys)
-        tree = w.fresh(ucap)
+        tree = w.fresh(ucap, view)
         order = list(range(1, n + 3)) + [rng.randrange(1, n + 3) for _ in range(6)]
         rng.shuffle(order)
-        events = []
-        for t in order:
-            wc = rng.random() < 0.3
-            w.gather(tree, t, wc)
-            p = w.project(tree)
-            events.append({"t": t, "wc": wc, "els": list(p["elements"]), "unch": list(p["unchained"]),
-                           "cont": sorted(p["cont"])})
-        traces.append({"parent": parent, "fpar": fpar, "ucap": ucap, "events": events})
-    if corrupt == "drop-element":
-        ev = traces[0]["events"][-1]
-        ev["els"] = ev["els"][:-1]
-    elif corrupt == "smuggle-forged":
-        ev = traces[0]["events"][-1]
-        ev["els"] = ev["els"] + [n + 1]
+        if ti % 4 == 1:
+            # a root path as serialize_public(up_to) lists it (leaf first) somewhere in the history
+            leaf = rng.randrange(1, n + 1)
+            path = [leaf]
+            while parent[path[-1] - 1] != 0:
+                path.append(parent[path[-1] - 1])
+            at = rng.randrange(len(order))
+            order[at:at] = [("wire", path)]
+        events = [_event(w, tree, "I", 0, False, [], False)]
+        i = 0
+        while i < len(order):
+            if isinstance(order[i], tuple):
+                seq = order[i][1]
+                i += 1
+            elif rng.random() < 0.25:
+                k = rng.randrange(2, 6)
+                seq = []
+                while len(seq) < k and i < len(order) and not isinstance(order[i], tuple):
+                    seq.append(order[i])
+                    i += 1
+            else:
+                seq = None
+            if seq is None:
+                t = order[i]
+                i += 1
+                wc = rng.random() < 0.3
+                ret = w.gather(tree, t, wc) is not None
+                events.append(_event(w, tree, "G", t, wc, [], ret))
+                continue
+            # the wire string: chunks of seq, some of them replaced / preceded by chunks that verify under no key
+            # (random bytes, a genuine chunk with one signature bit flipped): for the spec these are the forged token
+            chunks, ids = [], []
+            for t in seq:
+                roll = rng.random()
+                if roll < 0.12:
+                    chunks.append(bytes(rng.getrandbits(8) for _ in range(len(w.chunk(t)))))
+                    ids.append(n + 1)
+                elif roll < 0.24:
+                    c = bytearray(w.chunk(t))
+                    c[-1 - rng.randrange(8)] ^= 1 << rng.randrange(8)
+                    chunks.append(bytes(c))
+                    ids.append(n + 1)
+                chunks.append(w.chunk(t))
+                ids.append(t)
+            ret = tree.unserialize_public(b"".join(chunks))
+            events.append(_event(w, tree, "U", 0, False, ids, ret))
+        traces.append({"parent": parent, "fpar": fpar, "ucap": ucap, "view": view, "events": events})
     return traces
 
 
-def validate_traces(ctx, traces, tag, expect_reject=False):
+def control_traces(keys, seed):
+    """Wrong histories (what a broken implementation would have logged); each must be rejected by TokenTreeTrace.tla."""
+    n = TRACE_N
+    out = []
+
+    def base(view="pub"):
+        parent = [i for i in range(n)]                      # a chain 1 <- 2 <- ... <- n
+        w = World(n, parent, 0, *keys)
+        tree = w.fresh(n + 2, view)
+        tr = {"parent": parent, "fpar": 0, "ucap": n + 2, "view": view,
+              "events": [_event(w, tree, "I", 0, False, [], False)]}
+        return w, tree, tr
+
+    # 1. an element silently missing from the report
+    w, tree, tr = base()
+    for t in (1, 2, 3):
+        ret = w.gather(tree, t, False) is not None
+        tr["events"].append(_event(w, tree, "G", t, False, [], ret))
+    tr["events"][-1]["els"] = tr["events"][-1]["els"][:-1]
+    out.append(("trace with one element removed is rejected", tr))
+    # 2. the forged token reported as contained
+    w, tree, tr = base()
+    for t in (1, n + 1):
+        ret = w.gather(tree, t, False) is not None
+        tr["events"].append(_event(w, tree, "G", t, False, [], ret))
+    tr["events"][-1]["els"] = tr["events"][-1]["els"] + [n + 1]
+    out.append(("trace reporting the forged token as contained is rejected", tr))
+    # 3. a wire string whose chunks behind a parked chunk were skipped (leaf-first path: 3, 2, 1)
+    w, tree, tr = base()
+    ev = _event(w, tree, "U", 0, False, [3, 2, 1], False)
+    ev["unch"] = [3]
+    tr["events"].append(ev)
+    out.append(("trace of a wire string that stops at its first parked chunk is rejected", tr))
+    # 4. a wire string with a forged chunk in front, reported as 'all correct'
+    w, tree, tr = base()
+    ret = w.unserialize(tree, [n + 1, 1, 2])
+    ev = _event(w, tree, "U", 0, False, [n + 1, 1, 2], ret)
+    ev["ret"] = True
+    tr["events"].append(ev)
+    out.append(("trace of a wire string with a forged chunk reporting success is rejected", tr))
+    # 5. a view built from a full key object that keeps that key (other genesis: takes nothing)
+    w, tree, tr = base("full")
+    tr["events"][0]["key"] = "ownerFull"
+    ev = _event(w, tree, "G", 1, False, [], False)
+    ev["key"] = "ownerFull"
+    tr["events"].append(ev)
+    out.append(("trace of a view (full key object) that refuses the owner's root token is rejected", tr))
+    # 6. gather_token result None for a token that was taken
+    w, tree, tr = base("own")
+    ret = w.gather(tree, 1, False) is not None
+    ev = _event(w, tree, "G", 1, False, [], ret)
+    ev["ret"] = False
+    tr["events"].append(ev)
+    out.append(("trace where gather_token returns None for a token it chained is rejected", tr))
+    return out
+
+
+def run_trace_tlc(traces, continue_=False):
     tmp = scratch_dir("c16t-")
     try:
         path = os.path.join(tmp, "traces.json")
         with open(path, "w", encoding="utf-8") as f:
             json.dump(traces, f)
-        r = run_tlc("TokenTreeTrace.tla", "TokenTreeTrace.cfg", env={"TRACE_FILE": path}, coverage=False)
+        return run_tlc("TokenTreeTrace.tla", "TokenTreeTrace.cfg", env={"TRACE_FILE": path}, coverage=False,
+                       continue_=continue_, java_opts=("-Xmx3g",))
     finally:
         shutil.rmtree(tmp, ignore_errors=True)
-    if expect_reject:
-        return not r.ok
+
+
+def judge_traces(ctx, traces, r, tag):
     ctx.add_tlc(tag, r)
     if not r.ok:
         last = r.error_trace[-1][1] if r.error_trace else {}
         tid, l = last.get("tid"), last.get("l")
+        if tid is None:         # "violated by the initial state": TLC prints that state without a "State 1:" header
+            m = re.search(r"^/\\ tid = (\d+)$", r.output, re.M)
+            tid, l = (int(m.group(1)), 1) if m else (None, None)
         bad = traces[tid - 1] if isinstance(tid, int) else None
-        ctx.violation("trace:%s" % r.violated,
-                      "recorded TokenTree history is not a behaviour of TokenTree.tla (%s) at event %s" % (r.violated, l),
+        ev = bad["events"][l - 1] if bad and isinstance(l, int) and l <= len(bad["events"]) else None
+        kind = {"G": "gather_token", "U": "unserialize_public", "I": "construction"}.get((ev or {}).get("k"), "?")
+        ctx.violation("trace:%s:%s" % (r.violated, kind),
+                      "recorded TokenTree history (view %r) is not a behaviour of TokenTree.tla (%s) at event %s (%s)"
+                      % ((bad or {}).get("view"), r.violated, l, kind),
                       {"trace": bad, "event_index": l})
     else:
         ctx.traces(len(traces))
-        ctx.evaluated(sum(len(t["events"]) for t in traces))
+        ctx.evaluated(sum(len(t["events"]) + sum(len(e["ts"]) for e in t["events"]) for t in traces))
         for t in traces:
-            ctx.nontrivial(("trace", tuple(t["parent"]), tuple(e["t"] for e in t["events"])))
+            ctx.nontrivial(("trace", t["view"], tuple(t["parent"]),
+                            tuple((e["t"], tuple(e["ts"])) for e in t["events"])))
+        ctx.note("traces", {"histories": len(traces),
+                            "by_view": {v: sum(1 for t in traces if t["view"] == v) for v in VIEWS},
+                            "gather_events": sum(1 for t in traces for e in t["events"] if e["k"] == "G"),
+                            "wire_events": sum(1 for t in traces for e in t["events"] if e["k"] == "U"),
+                            "wire_chunks": sum(len(e["ts"]) for t in traces for e in t["events"])})
     return r.ok
+
+
+class _Rec:
+    """Stand-in for Ctx inside a replay process: records the calls, the parent applies them to the real Ctx."""
+
+    def __init__(self, seed):
+        self.seed = seed
+        self.calls = []
+        self.violations = []
+
+    def _rec(self, name, *a):
+        self.calls.append((name, a))
+
+    def add_tlc(self, tag, r):
+        self._rec("add_tlc", tag, SimpleNamespace(distinct=r.distinct, generated=r.generated, depth=r.depth,
+                                                  wall=r.wall, coverage=dict(r.coverage)))
+
+    def violation(self, sig, desc, replay=None):
+        self.violations.append(sig)
+        self._rec("violation", sig, desc, replay)
+
+    def evaluated(self, n=1):
+        self._rec("evaluated", n)
+
+    def nontrivial(self, key):
+        self._rec("nontrivial", key)
+
+    def sample(self, s):
+        self._rec("sample", s)
+
+    def traces(self, n=1):
+        self._rec("traces", n)
+
+    def note(self, key, value):
+        self._rec("note", key, value)
+
+
+_KEYS = None      # set before the replay processes are forked (key objects cannot be pickled)
+
+
+_RG = None        # the parsed state graph, set before the part processes of one job are forked
+
+
+def _replay_part(seed, cfgname, n, ucap, max_ops, tag, expect_actions, part, nparts):
+    rec = _Rec(seed)
+    st = replay_graph(rec, cfgname, _RG, n, ucap, max_ops, _KEYS, tag, expect_actions, part, nparts)
+    return rec.calls, st
+
+
+def _replay_job(seed, cfgname, n, ucap, max_ops, tag, expect_actions, nparts):
+    """One state graph: TLC + dump + replay on the real TokenTree, in a process of its own (forked: keys are shared);
+    the walks of the edge cover are dealt to nparts processes forked after the graph is parsed."""
+    global _RG
+    rec = _Rec(seed)
+    t0 = time.monotonic()
+    _RG = tlc_graph(cfgname)
+    r, g = _RG
+    rec.add_tlc(tag, r)
+    t1 = time.monotonic()
+    args = (seed, cfgname, n, ucap, max_ops, tag, expect_actions)
+    if nparts == 1:
+        results = [_replay_part(*args, 0, 1)]
+    else:
+        with ProcessPoolExecutor(max_workers=nparts, mp_context=multiprocessing.get_context("fork")) as pool:
+            fs = [pool.submit(_replay_part, *args, i, nparts) for i in range(nparts)]
+            try:
+                results = [f.result() for f in fs]
+            except BrokenProcessPool as e:
+                raise MachineryError("a replay process died (%s)" % e) from e
+    covered, views, tot = set(), set(), {"walks": 0, "transitions_replayed": 0, "real_operations": 0}
+    for calls, st in results:
+        rec.calls.extend(calls)
+        covered |= st["covered"]
+        views |= st["views"]
+        for k in tot:
+            tot[k] += st[k]
+    rec.note("replay_" + tag, dict(tot, graph_states=len(g.states), graph_edges=len(g.edges), views=sorted(views),
+                                   edges_covered=len(covered), complete_edge_cover=len(covered) == len(g.edges),
+                                   processes=nparts))
+    rec.note("wall_" + tag, {"tlc_and_parse_s": round(t1 - t0, 1), "replay_s": round(time.monotonic() - t1, 1)})
+    return rec.calls
 
 
 def run(tier, seed, replay=None):
@@ -250,44 +544,94 @@ def run(tier, seed, replay=None):
     from ipv8.keyvault.crypto import default_eccrypto
     ctx = Ctx(PID, tier, seed, "model_checking")
     ctx.cov["rule"] = ("TLC enumerates every tree shape (parent function) x every arrival order incl. forged, dangling and "
-                       "duplicate tokens; each transition of the dumped state graph is executed on the real TokenTree "
-                       "(edge cover) and the projected elements/unchained/content compared with the TLC state; "
-                       "non-trivial = distinct (tree shape, walk) pairs and distinct recorded histories")
+                       "duplicate tokens, single offers and wire strings (every chunk order), every way to construct the "
+                       "tree object; each transition of the dumped state graph is executed on the real TokenTree "
+                       "(edge cover) and the projected elements/unchained/content/result/key compared with the TLC "
+                       "state; non-trivial = distinct (tree shape, view, walk) triples and distinct recorded histories")
     ctx.assumptions += ["signature primitives of the key vault are trusted (used to build forged/foreign tokens)",
                         "hash collisions of SHA3-256 do not occur"]
     rng = random.Random(seed)
     keys = (default_eccrypto.generate_key("curve25519"), default_eccrypto.generate_key("curve25519"))
+    quick = tier == "quick"
+    small = ("-Xmx2g",)
 
-    # spec-level negative control: with the pinned first-child-only wake-up TLC must find Complete violated
-    r = run_tlc("TokenTree.tla", "TokenTree_pinned.cfg", coverage=False)
-    ctx.control("spec with first-child-only wake-up violates Complete", r.violated == "Complete")
+    # binding R: one process per state graph (TLC + dump + replay), forked before any thread exists
+    jobs = [("TokenTree_n4.cfg", 4, 6, None, "n4", ["Gather"], 3),
+            ("TokenTree_wire.cfg", 3, 2, 9000 if quick else None, "wire", ["Gather", "Unserialize"], 1 if quick else 3),
+            ("TokenTree_content.cfg", 3, 1, 30000 if quick else None, "content", ["Gather", "ReceiveContent"],
+             1 if quick else 4)]
+    if not quick:
+        jobs.append(("TokenTree_n5.cfg", 5, 7, None, "n5", ["Gather"], 6))
+    global _KEYS
+    _KEYS = keys
+    pp = ProcessPoolExecutor(max_workers=len(jobs), mp_context=multiprocessing.get_context("fork"))
+    ex = None
+    try:
+        f_jobs = [pp.submit(_replay_job, seed, c, n, u, m, tag, acts, _k) for c, n, u, m, tag, acts, _k in jobs]
+        ex = ThreadPoolExecutor(max_workers=6)
+        # the large exhaustive run and the spec-level negative controls (each deviation switched on must violate the
+        # named invariant) run beside them
+        big = "n5" if quick else "n6"
+        f_big = ex.submit(run_tlc, "TokenTree.tla", "TokenTree_%s.cfg" % big, coverage=False, timeout=7200)
+        f_ctl = [("spec with first-child-only wake-up violates Complete", "Complete",
+                  ex.submit(run_tlc, "TokenTree.tla", "TokenTree_pinned.cfg", coverage=False, java_opts=small)),
+                 ("spec whose view keeps a full key object as given violates Complete", "Complete",
+                  ex.submit(run_tlc, "TokenTree.tla", "TokenTree_ctl_key.cfg", coverage=False, java_opts=small)),
+                 ("spec whose unserialize_public stops at the first refused chunk violates WireIsFold", "WireIsFold",
+                  ex.submit(run_tlc, "TokenTree.tla", "TokenTree_ctl_wire.cfg", coverage=False, java_opts=small))]
 
-    if tier == "quick":
-        replay_graph(ctx, "TokenTree_n4.cfg", 4, 6, None, keys, "n4")
-        replay_graph(ctx, "TokenTree_content.cfg", 3, 1, 40000, keys, "content")
-        r5 = run_tlc("TokenTree.tla", "TokenTree_n5.cfg")
-        ctx.add_tlc("n5", r5)
-        if not r5.ok:
-            raise MachineryError("TokenTree_n5: %s" % r5.violated)
-        ntr = 40
-    else:
-        replay_graph(ctx, "TokenTree_n4.cfg", 4, 6, None, keys, "n4")
-        replay_graph(ctx, "TokenTree_content.cfg", 3, 1, None, keys, "content")
-        replay_graph(ctx, "TokenTree_n5.cfg", 5, 7, None, keys, "n5")
-        r6 = run_tlc("TokenTree.tla", "TokenTree_n6.cfg", coverage=False, timeout=7200)
-        ctx.add_tlc("n6", r6)
-        if not r6.ok:
-            raise MachineryError("TokenTree_n6: %s" % r6.violated)
-        ntr = 400
-    ctx.cov["exhaustive"] = True
+        # binding T: record while TLC is busy, validate in the background
+        rec_error = None
+        f_tr = f_bad = None
+        traces = []
+        try:
+            traces = record_traces(ctx, keys, 40 if quick else 400, rng)
+            bad = control_traces(keys, seed)
+            f_tr = ex.submit(run_trace_tlc, traces)
+            f_bad = ex.submit(run_trace_tlc, [t for _n, t in bad], True)
+        except MachineryError:
+            raise
+        except Exception:  # noqa: BLE001 - judged below: only a verdict if the replays confirm a divergence
+            import traceback
+            rec_error = traceback.format_exc()
 
-    if not ctx.violations:
-        traces = record_traces(ctx, keys, ntr, rng)
-        validate_traces(ctx, traces, "trace")
-        ctx.sample({"recorded_history": {"parent": traces[0]["parent"], "first_events": traces[0]["events"][:3]}})
-        # trace negative controls
-        bad = record_traces(ctx, keys, 1, random.Random(seed + 1), corrupt="drop-element")
-        ctx.control("trace with one element removed is rejected", validate_traces(ctx, bad, "ctl", True))
-        bad = record_traces(ctx, keys, 1, random.Random(seed + 2), corrupt="smuggle-forged")
-        ctx.control("trace reporting the forged token as contained is rejected", validate_traces(ctx, bad, "ctl", True))
+        for f in f_jobs:
+            try:
+                calls = f.result()
+            except BrokenProcessPool as e:
+                raise MachineryError("a replay process died (%s)" % e) from e
+            for name, a in calls:
+                getattr(ctx, name)(*a)
+
+        if f_tr is not None:
+            judge_traces(ctx, traces, f_tr.result(), "trace")
+            ctx.sample({"recorded_history": {"parent": traces[0]["parent"], "view": traces[0]["view"],
+                                             "first_events": traces[0]["events"][:4]}})
+            rb = f_bad.result()
+            # every state TLC prints in this run belongs to a rejected history (also "violated by the initial state")
+            rejected = {int(x) for x in re.findall(r"^/\\ tid = (\d+)$", rb.output, re.M)}
+            for i, (name, _t) in enumerate(bad):
+                ctx.control(name, (i + 1) in rejected)
+        if rec_error is not None:
+            if not ctx.violations:
+                raise MachineryError("recording histories of the real TokenTree failed:\n" + rec_error)
+            ctx.note("recording_failed", rec_error[-600:])
+
+        for name, inv, f in f_ctl:
+            ctx.control(name, f.result().violated == inv)
+        rbig = f_big.result()
+        if not rbig.ok:
+            raise MachineryError("TokenTree_%s: %s" % (big, rbig.violated))
+        # Gather is the only action of that configuration: every generated state but the initial ones is a Gather step
+        m = re.search(r"Finished computing initial states: (\d+) distinct state", rbig.output)
+        if m and rbig.generated > int(m.group(1)):
+            rbig.coverage = {"Gather": (rbig.distinct - int(m.group(1)), rbig.generated - int(m.group(1)))}
+        else:
+            raise MachineryError("TokenTree_%s: no Gather step was explored" % big)
+        ctx.add_tlc(big, rbig)
+        ctx.cov["exhaustive"] = True
+    finally:
+        if ex is not None:
+            ex.shutdown(wait=True, cancel_futures=True)
+        pp.shutdown(wait=True, cancel_futures=True)
     return ctx.finish()
